@@ -144,7 +144,9 @@ func runC13(e *core.Env) {
 		}
 		r := core.NewRand(e.Seed, 13, uint64(i))
 		var today ref.Date
-		switch r.Intn(6) {
+		switch r.Intn(7) {
+		case 6: // the first weeks of the representable range (year 0000): weekday arithmetic with negative intermediate values
+			today = ref.Date{Y: 0, M: r.PickInt(1, 1, 2, 3), D: r.Range(2, 28)}
 		case 5: // February / March of century years (leap and not): the month's last day is where calendar shortcuts go wrong
 			y := r.PickInt(1900, 2100, 2200, 2300, 2000, 2400, 100, 9900)
 			m := r.PickInt(2, 2, 3)
